@@ -43,7 +43,7 @@ def classify(s):
     if s.endswith("/*"):
         return "star"
     if s.endswith("/"):
-        return "dir"
+        return "anchored-dir" if "/" in s[:-1] else "dir"     # a separator in the middle anchors the pattern to the root
     if s.startswith("*."):
         return "ext"
     if "/" in s:
@@ -59,6 +59,8 @@ def ref_regex(s):
         return rf"(?:.+/)?{e(s)}(?:/.*)?"
     if k == "dir":
         return rf"(?:.+/)?{e(s[:-1])}/.*"
+    if k == "anchored-dir":
+        return rf"{e(s[:-1])}/.*"
     if k == "ext":
         return rf"(?:.+/)?[^/]*{e(s[1:])}(?:/.*)?"
     if k == "anchored":
@@ -305,15 +307,27 @@ def h_check(d1: int, d2: int, f3: int, quiet: bool) -> bool:
     post: _
     """
     if TOLERATE:
-        r = real_h_check(_pick(d1, len(DIRS)), _pick(d2, len(DIRS)), _pick(f3, len(FILES)), True if quiet else False)
-        return fin((not r["reproduced"]) or r["sig"] in TOLERATE, True)
+        return fin(_check_tolerant(_pick(d1, len(DIRS)), _pick(d2, len(DIRS)), _pick(f3, len(FILES)), True if quiet else False), True)
     bad = _check(_pick(d1, len(DIRS)), _pick(d2, len(DIRS)), _pick(f3, len(FILES)), True if quiet else False)
     return fin(bad == [], True)
 
 
-def real_h_check(d1, d2, f3, quiet):
+@untraced
+def _check_tolerant(d1, d2, f3, quiet):
+    bad = _check.__wrapped__(d1, d2, f3, quiet)
+    if not bad:
+        return True
+    return _classify(d1, d2, f3, bad) in TOLERATE
+
+
+def _classify(d1, d2, f3, bad):
+    return real_h_check(d1, d2, f3, False, bad)["sig"]
+
+
+def real_h_check(d1, d2, f3, quiet, bad=None):
     f = _check.__wrapped__ if hasattr(_check, "__wrapped__") else _check
-    bad = f(d1, d2, f3, quiet)
+    if bad is None:
+        bad = f(d1, d2, f3, quiet)
     kinds = sorted({b.split(":")[0] for b in bad})
     # classify: were the wrongly checked files hidden only through a dot-component of the directory argument itself?
     argdir = {"parent": DIRS[d1] + "/" + DIRS[d2], "grandparent": DIRS[d1], "parent-abs": DIRS[d1] + "/" + DIRS[d2]}.get(ARG, "")
